@@ -44,8 +44,8 @@ PROPS["C01"] = {
     "outside": "non-carbon route types (enter only as capture routes); real sockets; filter semantics (C03)",
     "assumptions": ["destinations are observed through their In channel (not running)", "validation level none so every 3-field line is valid"],
     "groups": [
-        {"pkg": "table", "hdir": "table", "specs": [spec("C01/table", "VerifC01Table"), spec("C01/rewritten", "VerifC01Rewritten")]},
-        {"pkg": "route", "hdir": "route", "specs": [spec("C01/route", "VerifC01Route")]},
+        {"pkg": "table", "hdir": "table", "specs": [spec("C01/table", "VerifC01Table"), spec("C01/rewritten", "VerifC01Rewritten"), spec("C01/table/entries<=4", "VerifC01Table", {"max": "4"}, tier="thorough")]},
+        {"pkg": "route", "hdir": "route", "specs": [spec("C01/route", "VerifC01Route"), spec("C01/route/dests<=5", "VerifC01Route", {"max": "5"}, tier="thorough")]},
     ],
 }
 
@@ -61,7 +61,7 @@ PROPS["C18"] = {
     "outside": "instruction-level interleavings and memory-model effects: the property is reduced to snapshot immutability + single snapshot load per dispatch + model-list equality (DESIGN.md C18)",
     "assumptions": ["copy-on-write reduction: if a published snapshot is never modified and each dispatch loads exactly one snapshot, any interleaving equals the change happening before or after the dispatch"],
     "groups": [
-        {"pkg": "table", "hdir": "table", "specs": [spec("C18/table", "VerifC18Table"), spec("C18/readers", "VerifC18Readers")]},
+        {"pkg": "table", "hdir": "table", "specs": [spec("C18/table", "VerifC18Table"), spec("C18/readers", "VerifC18Readers"), spec("C18/table/n<=4,ops<=2", "VerifC18Table", {"maxn": "4"}, tier="thorough"), spec("C18/table/n<=2,ops<=3", "VerifC18Table", {"maxn": "2", "maxops": "3"}, tier="thorough")]},
         {"pkg": "route", "hdir": "route", "specs": [spec("C18/route", "VerifC18Route")]},
     ],
 }
@@ -86,7 +86,12 @@ PROPS["C05"] = {
     "groups": [
         {"pkg": "destination", "hdir": "destination", "specs": [
             spec("C05/writer/write-step", "VerifC05WriteStep"), spec("C05/writer/flush-step", "VerifC05FlushStep"),
+            spec("C05/writer/write-step/S<=5", "VerifC05WriteStep", {"maxS": "5"}, tier="thorough"), spec("C05/writer/flush-step/S<=5", "VerifC05FlushStep", {"maxS": "5"}, tier="thorough"),
+            spec("C05/conn/handledata/lines<=4", "VerifC05HandleData", {"maxlines": "4"}, tier="thorough"),
             spec("C05/conn/write", "VerifC05ConnWrite"), spec("C05/conn/handledata", "VerifC05HandleData")]},
+        # "the only lines that may be absent are those counted as dropped because the connection was slow":
+        # the composed relay scenario of C06 (healthy / slow-then-reading endpoint: received + slow_conn drops = handed off)
+        {"pkg": "destination", "hdir": "destination", "native_optional": True, "specs": [spec("C05/relay/received-or-counted", "VerifC06Steady")]},
     ],
 }
 
